@@ -315,6 +315,51 @@ func TestGvcReplay(t *testing.T) {
 	}
 }
 `}})
+	clauseScenarios = append(clauseScenarios,
+		clauseScenario{"taskfile.(*Reader).readRemoteNodeContent", "cachedBytes", scenario{pkgRel: "taskfile", what: "a remote Taskfile that was downloaded and approved is not served from the cache when the server refuses the connection",
+			src: `package taskfile
+
+import (
+	"context"
+	"errors"
+	"testing"
+	"time"
+)
+
+// gvcRemote is a remote node whose server is up for the first read and refuses connections afterwards.
+type gvcRemote struct {
+	down bool
+}
+
+func (n *gvcRemote) Read() ([]byte, error)                               { return n.ReadContext(context.Background()) }
+func (n *gvcRemote) Parent() Node                                        { return nil }
+func (n *gvcRemote) Location() string                                    { return "https://example.invalid/Taskfile.yml" }
+func (n *gvcRemote) Dir() string                                         { return "" }
+func (n *gvcRemote) ResolveEntrypoint(entrypoint string) (string, error) { return entrypoint, nil }
+func (n *gvcRemote) ResolveDir(dir string) (string, error)               { return dir, nil }
+func (n *gvcRemote) CacheKey() string                                    { return "gvc.example" }
+func (n *gvcRemote) ReadContext(ctx context.Context) ([]byte, error) {
+	if n.down {
+		return nil, errors.New("dial tcp: connection refused")
+	}
+	return []byte("version: '3'\ntasks: {a: {cmds: [echo hi]}}\n"), nil
+}
+
+func TestGvcReplay(t *testing.T) {
+	node := &gvcRemote{}
+	r := NewReader(WithTempDir(t.TempDir()), WithCacheExpiryDuration(time.Nanosecond), WithPromptFunc(func(string) error { return nil }))
+	first, err := r.readRemoteNodeContent(context.Background(), node)
+	if err != nil {
+		t.Fatalf("first read (server up, approved): %v", err)
+	}
+	node.down = true
+	time.Sleep(2 * time.Millisecond) // the cached copy is expired now, so a fresh download is attempted
+	second, err := r.readRemoteNodeContent(context.Background(), node)
+	if err != nil || string(second) != string(first) {
+		t.Fatalf("GVC-REPLAY-REPRODUCED: with the server refusing connections the approved cached copy was not used: %v", err)
+	}
+}
+`}})
 	clauseScenarios = append(clauseScenarios, clauseScenario{"fingerprint.(*TimestampChecker).OnError", "stampPath", scenario{pkgRel: "", what: "method timestamp: a failed run leaves the stamp file, the next run reports the task up to date",
 		src: gvcHeader + `
 func TestGvcReplay(t *testing.T) {
